@@ -50,6 +50,11 @@ def run_generator(p, want_content=False):
                 mv, rw, lo = rg.gen_rnd_board(p["seed"], p["length"], p["width"], p["p_loose"], p["max_reward"], p["force_down"])
                 flat = [x for row in rw for x in row]
                 content = content + (gamesd["game_a"]["rewards"][:len(flat)] == flat,)
+                # which mode was the board produced in?  The light's states are the first length*width states of game A; a tile is
+                # down-only iff its light state offers nothing but Green.  force-down boards have one in every row, others have none
+                W_, L_ = p["width"], p["length"]
+                only_green = [[{a for a, _ in gamesd["game_a"]["transition_list"][i * W_ + j]} == {"Green"} for j in range(W_)] for i in range(L_)]
+                content = content + ("every_row" if all(any(r) for r in only_green) else ("none" if not any(any(r) for r in only_green) else "some"),)
             except Exception as e:
                 content = "unreadable: %r" % e
     if want_content:
@@ -63,8 +68,14 @@ def check_content(p, content):
         return []
     if isinstance(content, str):
         return [{"problem": "generated file cannot be read back: " + content}]
-    tile, robot, light, board_ok = content
+    tile, robot, light, board_ok = content[:4]
     pr = []
+    if len(content) > 4:
+        want = "every_row" if p["force_down"] else "none"
+        if content[4] != want:
+            pr.append({"problem": "the file name %s the force-down flag, but the board in the file has down-only tiles in %s"
+                                  % ("carries" if p["force_down"] else "does not carry", {"every_row": "every row", "none": "no row", "some": "some rows only"}[content[4]]),
+                       "param": "force_down"})
     if not board_ok:
         pr.append({"problem": "the tile rewards in the file are not those of the board the stated seed, sizes, maximum reward, loose-tile probability and flag generate"})
     for nm, found, val in (("tile-break", tile, p["p_tile"]), ("robot", robot, p["p_robot"]), ("light", light, p["p_light"])):
@@ -157,8 +168,8 @@ def decide_random(idx, seed0):
     problems = check_name(p, exc, writes, files)
     if len({ks["p_robot"], ks["p_light"], ks["p_tile"], 100 - ks["p_robot"], 100 - ks["p_light"], 100 - ks["p_tile"]}) == 6:
         problems += check_content(p, content)
-    elif content is not None and not isinstance(content, str) and not content[3]:
-        problems += [q for q in check_content(p, content) if "tile rewards" in q["problem"]]
+    elif content is not None and not isinstance(content, str):
+        problems += [q for q in check_content(p, content) if "tile rewards" in q["problem"] or q.get("param") == "force_down"]
     res = {"idx": idx, "verdict": "held", "tags": ["RND"], "key": repr(sorted((k, v) for k, v in p.items() if k != "_k")), "nontrivial": True,
            "stats": {"names_parsed": 1, "content_checked": int(content is not None)}}
     if problems:
@@ -182,9 +193,11 @@ def decide_manual(idx, seed0):
     if idx % 5 == 1:
         mr = 0                                    # a board without any reward
         rewards = [[0] * W for _ in range(L)]
-    elif idx % 5 == 2:
-        mr = rng.choice([2.5, 0.5, 7.25])         # hand-made boards may carry non-integer rewards
-        rewards = [[rng.choice([0, 0.25, mr]) for _ in range(W)] for _ in range(L)]
+    elif idx % 5 in (2, 4):
+        # hand-made boards may carry non-integer rewards: halves and quarters, whole floats, and decimals with a zero right after
+        # the point or inside (2.05, 10.05, 40.04, 1.005): the r-field must state exactly that number
+        mr = rng.choice([2.5, 0.5, 7.25, 2.05, 10.05, 3.01, 1.0, 5.0, 0.05, 100.0, 20.0, 40.04, 1.005, 12.0, 0.001, 30.03, 9.09])
+        rewards = [[rng.choice([0, 0.25 if mr > 0.25 else 0, mr]) for _ in range(W)] for _ in range(L)]
         rewards[rng.randrange(L)][rng.randrange(W)] = mr
     loose = [[rng.choice([0, 1]) for _ in range(W)] for _ in range(L)]
     ks = [rng.randint(1, 99) for _ in range(3)]
